@@ -555,6 +555,10 @@ func forcedCases(r *hx.Rng, tier string) []Case {
 		}
 
 		pbs := []Op{{Kind: "popen", U: 1}, {Kind: "popen", U: 1, K: 9}, {Kind: "popen", U: 2}, {Kind: "psetcfg", U: 1, Ks: []int{1}}}
+		if st.Base == "" {
+			pbs = append(pbs, Op{Kind: "psclose", U: 2, ID: 1}, Op{Kind: "pclose"})
+		}
+
 		if !provRestricted(st) {
 			pbs = append(pbs, Op{Kind: "pgetopen"})
 		}
